@@ -25,7 +25,13 @@ def x_obligations(tier):
         o.append(Obl(f"C05-inj[{a[0]!r}+{a[1]}+{a[2]!r} | {b[0]!r}+{b[1]}+{b[2]!r}]", M, "injective",
                      env={"VF_PRE": a[0], "VF_N": str(a[1]), "VF_SUF": a[2], "VF_PRE2": b[0], "VF_SUF2": b[2]}, timeout=T, path_timeout=200, family="C05-inj",
                      bound="two symbolic Sids of the same / sibling file types"))
-    ship = [("hamlet/a/char/", 1, "/model/v001/w/ma"), ("hamlet/a/char/x_", 1, "/rig/v002/p/mov"), ("hamlet/s/sq01", 1, "/sh0010/anim/v001/w/ma")]
+    # Sids built from fields: free values with any character (also '?' and ':' which a Sid string cannot carry)
+    for base, key, n, cfg in ([("h/a/x/v1/m", "n", 2, "local"), ("h/s/q1/v1/o/c", "o", 1, "server"), ("h/a/x", "n", 2, "server")] if tier == "quick" else
+                              [(b, k, n, c) for (b, k, n) in [("h/a/x/v1/m", "n", 3), ("h/s/q1/v1/o/c", "o", 2), ("h/a/x", "n", 3), ("h/s/q1/v1/o", "o", 3), ("h/a/x/v1/g", "n", 2)] for c in ("local", "server")]):
+        o.append(Obl(f"C05-rt-fields[{cfg},{base},{key},len<={n}]", M, "roundtrip_fields", env={"VF_BASE": base, "VF_KEY": key, "VF_N": str(n), "VF_CONFIG": cfg}, timeout=T, path_timeout=200, family="C05-rt",
+                     bound=f"Sid(fields = fields of {base} with {key} = t), every str t with len<={n} (all code points); configuration {cfg}"))
+    ship = [("hamlet/a/char/", 1, "/model/v001/w/ma"), ("hamlet/a/char/x_", 1, "/rig/v002/p/mov"), ("hamlet/s/sq01", 1, "/sh0010/anim/v001/w/ma"),
+            ("hamlet/s/sq010/sh0010/fx/v001/p/smok", 1, "/vdb")]      # the node-file path template names {node} before {state}
     for pre, n, suf in ship:
         for cfg in ("local", "server"):
             o.append(Obl(f"C05-rt[shipped,{cfg},{pre!r}+{n}+{suf!r}]", M, "roundtrip", env={"VF_CONF": "shipped", "VF_PRE": pre, "VF_N": str(n), "VF_SUF": suf, "VF_CONFIG": cfg}, timeout=T, path_timeout=300, family="C05-shipped",
